@@ -496,9 +496,13 @@ def _mutation_events(tid0):
             vname = vlists[0][vi][0] if vi < len(vlists[0]) else "dense"
             if name.startswith("QGMRES") and vname in ("zero", "diagonal", "zero-row-col", "first-row-col-decoupled", "negative-zeros"):
                 cur = [cur[0] + 3 * np.eye(cur[0].shape[0])[:, :, None] * [1.0, 0, 0, 0], args[1]]   # keep the system regular
+                if vname == "zero":
+                    cur[1] = np.zeros_like(args[1])       # ... and solve it for a ZERO right-hand side (the solver's early exit)
             qa = [q_from_float(a) if a.ndim == 3 else quaternion.as_quat_array(a.copy()) for a in cur]
             before = [sha(a) for a in qa]
             np.random.seed(5)
+            e_harness = dict(np.geterr())
+            np.seterr(divide="warn", over="warn", under="ignore", invalid="warn")     # numpy's default policy (the harness itself runs under "ignore", which would hide a leaked "ignore")
             g0, e0, w0 = sha(np.asarray(np.random.get_state()[1])) + str(np.random.get_state()[2]), dict(np.geterr()), list(warnings.filters)
             try:
                 with contextlib.redirect_stdout(io.StringIO()):
@@ -509,11 +513,14 @@ def _mutation_events(tid0):
                 if not vname.startswith("leading-"):
                     raise       # boundary sizes may be outside a routine's domain (target rank 2 of a 1 x 1 matrix)
             g1 = sha(np.asarray(np.random.get_state()[1])) + str(np.random.get_state()[2])
-            # process-wide state: a routine that does not draw random numbers leaves the global generator alone; nobody leaves
-            # numpy's error state or the warning filters changed (mechanism clauses: reported as drift)
+            # process-wide state: a routine that does not draw random numbers leaves the global generator alone and nobody leaves
+            # the warning filters changed (mechanism clauses: reported as drift).  numpy's floating-point ERROR STATE is
+            # different: it decides whether a later call of the caller raises FloatingPointError or returns inf / nan, so a
+            # call that leaves it changed makes later results depend on the history - the property's own clause
             ev.append({"tid": tid, "ev": "Mutation", "fn": name, "variant": vname, "args_unchanged": [sha(a) for a in qa] == before,
-                       "generator_untouched": g1 == g0 or name.startswith(RANDOMIZED), "errstate_restored": dict(np.geterr()) == e0 and list(warnings.filters) == w0})
-            np.seterr(**e0)
+                       "generator_untouched": g1 == g0 or name.startswith(RANDOMIZED), "errstate_restored": list(warnings.filters) == w0,
+                       "fp_error_state_unchanged": dict(np.geterr()) == e0})
+            np.seterr(**e_harness)
             warnings.filters[:] = w0
             if vname == "dense":
                 # what a call RETURNS belongs to the caller: after the caller has overwritten the returned arrays in place,
